@@ -229,6 +229,29 @@ pub fn run(tier: &str) -> i32 {
         json!({"alone": n[0], "inside_full_range": n[1], "beside_other_kind": n[2]}),
     );
     rep.sample(json!({"range": "AsKh,AsKd,AsKc,AhKs,AhKd,AhKc,AdKs,AdKh,AdKc,AcKs,AcKh,AcKd:0.5", "expect": "AKo not reported (one combo has another weight); 12 leftovers"}));
+    // two cells in different states (the family shared with C06 / C17)
+    {
+        let cs = crate::c06::cell_pair_contents(thorough);
+        let chunk = 512;
+        let nch = (cs.len() + chunk - 1) / chunk;
+        let outs = par_map(nch, |k| {
+            let mut bad = vec![];
+            for c in &cs[k * chunk..((k + 1) * chunk).min(cs.len())] {
+                if let Some(b) = check_split(c) {
+                    if bad.len() < 2 {
+                        bad.push((c.clone(), b));
+                    }
+                }
+            }
+            bad
+        });
+        for bad in outs {
+            for (c, b) in bad {
+                rep.violation(Violation { key: format!("range={}", contents_text(&c)), sub: "cell-pairs".into(), case: json!({"contents": c.iter().map(|(k, w)| json!([k.0, k.1, w])).collect::<Vec<_>>()}), expected: json!("M-split"), observed: b });
+            }
+        }
+        rep.sub("cell-pairs", "two cells of the chart in different states (complete, only the first combo, all but the first combo, half/half, alternating): same-cell pairs and ordered pairs of different cells, partial before complete and complete before partial", cs.len() as u64, cs.len() as u64, thorough, json!({}));
+    }
     // a few whole-range cases
     let mut extra = 0u64;
     for c in [Contents::new(), full.clone()] {
